@@ -349,9 +349,9 @@ def batch_item_error(rid):
 
 
 # ------------------------------------------------------------------ the transports' serialisers as emitters
-def _built(which, what, idsel, psel, strsel):
+def _built(which, what, idsel, psel, strsel, st=None):
     rid = pick_id(idsel)
-    st = pick_str(strsel)
+    st = pick_str(strsel) if st is None else st
     fam = _ctor_pairs()[which]
     params = shape(psel, st)
     if what == 0:
@@ -374,14 +374,22 @@ def _built(which, what, idsel, psel, strsel):
     return JM.JSONRPCMessage(id=rid, method=st or "m")
 
 
-def wire_transports(which, what, idsel, psel, strsel):
+def wire_long(which, what, k, pat, psel, idsel):
+    """size dimension: the string member (method / message / params leaf) has c-1, c, c+1 characters"""
+    from harness import sizes as _sizes
+
+    n = _sizes.pick(_sizes.size_cases(70000, extra=_sizes.ENV_SIZES), k)
+    return wire_transports(which, what, idsel, psel, 0, st=_sizes.long_text(n, pat))
+
+
+def wire_transports(which, what, idsel, psel, strsel, st=None):
     """what each carrier actually emits for a message built by the library's constructors: the stdio line, and the
     JSON value posted by the Streamable HTTP and legacy SSE transports"""
     import json as _json
     from harness import h_C06, h_C11, h_C12
     from harness.stdio_fake import make_client, Rec
 
-    m = _built(which, what, idsel, psel, strsel)
+    m = _built(which, what, idsel, psel, strsel, st)
     want = m.model_dump(exclude_none=True)
     # stdio
     c = make_client()
